@@ -196,6 +196,18 @@ fn eval_union_expr(
     Ok(nodes.as_value())
 }
 
+/// The document node an absolute path starts from. A namespace node has no owner document
+/// to ask: report that instead of panicking.
+fn root_of(node: &dom::XmlNode) -> error::Result<dom::XmlNode> {
+    match node {
+        dom::XmlNode::Document(_) => Ok(node.clone()),
+        _ => node
+            .owner_document()
+            .map(|v| v.as_node())
+            .ok_or(error::Error::InvalidType),
+    }
+}
+
 fn eval_path_expr(
     path: &expr::PathExpr,
     node: dom::XmlNode,
@@ -206,10 +218,7 @@ fn eval_path_expr(
         expr::PathExpr::Path(filter, location) => {
             eval_filtered_loc_expr(filter, location, node.clone(), context)?.as_value()
         }
-        expr::PathExpr::Root => match node {
-            dom::XmlNode::Document(_) => vec![node].as_value(),
-            _ => vec![node.owner_document().unwrap().as_node()].as_value(),
-        },
+        expr::PathExpr::Root => vec![root_of(&node)?].as_value(),
     };
 
     Ok(nodes)
@@ -277,10 +286,7 @@ fn eval_filtered_loc_expr(
                     .collect(),
             }
         } else {
-            let root = match node {
-                dom::XmlNode::Document(_) => node,
-                _ => node.owner_document().unwrap().as_node(),
-            };
+            let root = root_of(&node)?;
             match op {
                 expr::LocationPathOperator::Current => vec![root],
                 expr::LocationPathOperator::DescendantOrSelfNode => descendant_and_self(root),
